@@ -7,7 +7,13 @@ that logs the *ctx object itself* on entry, before and after each child call, wh
 when it leaves; it optionally raises after its children; `def` nodes optionally catch per child.
 A case is a small pool of trees plus a set of runners (the calling thread and 0..N fresh threads,
 each optionally inside an outer `ControlStatusCtx` block, each running its tree 1..2 times) started
-behind a barrier.
+behind a barrier.  How the threads come to life is drawn too (`case['spawn']`, see _spawner): one
+threading.Thread per runner / a ThreadPoolExecutor (optionally smaller than the number of runners, so
+pool threads are reused; optionally with an initializer that replays the submitter's context
+variables) / asyncio.to_thread; each runner optionally under contextvars.copy_context().run (a copy,
+or a copy of a copy); the spawning thread is the calling thread or a fresh intermediate thread, has
+or has not looked at its status before, and is optionally inside a ControlStatusCtx block or a
+do_not_convert call while the workers live.
 
 Oracle:
   identity   every observation made inside one activation of a node is the very same object
@@ -16,8 +22,12 @@ Oracle:
   ctx-object which object is current on entry (caller's / the ctx handed to convert / a fresh one);
   trace      the event sequence (who ran, who caught which exception) is the modelled one;
   stack      top object and stack length after the tree equal those before it;
-  thread     no runner observes a ctx object seen by another runner; a fresh thread starts with its
-             own UNSPECIFIED default; the calling thread's status is untouched while threads run.
+  thread     no thread observes a ctx object seen by another thread (objects are attributed to the OS
+             thread that saw them: caller, spawner, workers); a fresh thread - however it was started
+             and whatever contextvars context it runs under - starts with its own UNSPECIFIED default,
+             which is none of the spawning thread's objects; the spawning (and the calling) thread's
+             status is untouched while threads run; a pool thread that runs a second runner still has
+             the status object it had for the first.
 """
 import re
 import threading
@@ -33,7 +43,9 @@ ID = 'C16'
 LEVEL = 'exploration'
 TECHNIQUE = ('property-based testing with a trace oracle: Hypothesis-generated call trees (convert / do_not_convert / '
              'internal.convert x ctx source / to_graph / ControlStatusCtx blocks / plain; def and lambda bodies; raise at any '
-             'node, catch at any def ancestor) rendered to modules and executed on 1..N threads; the logged ctx objects are '
+             'node, catch at any def ancestor) rendered to modules and executed on 1..N threads (threading.Thread / '
+             'ThreadPoolExecutor / asyncio.to_thread workers, with fresh or copied contextvars contexts, spawned by the calling '
+             'or an intermediate thread that may sit inside a status block); the logged ctx objects are '
              'compared by identity around every call and against an executable model of the documented status policy')
 RULE = ('a case (pool of trees + runner set) is non-trivial when, in at least one executed tree, a generated exception '
         'propagates out of >= 2 calls that each pushed at least one status context (per the model) before it is caught; '
@@ -45,14 +57,22 @@ ASSUMPTIONS = [
     'deterministic part of the thread clause (object disjointness, fresh default) does not depend on the schedule',
     'the expected status is the documented policy as written in DESIGN 4.16 (convert() called while DISABLED runs unconverted '
     'and stays DISABLED; to_graph output always enters ENABLED)',
-    'asyncio tasks / greenlets / generators suspended inside a context are not generated',
+    'asyncio tasks / greenlets / generators suspended inside a context are not generated: asyncio only appears as '
+    'asyncio.to_thread (worker threads running under a copy of the awaiting task\'s context); the event-loop thread itself never '
+    'suspends inside a status context',
+    'a thread is a thread however it was started: workers started through contextvars.copy_context().run, asyncio.to_thread '
+    'or a pool whose initializer replays the submitter\'s context variables are held to the same clause as plain '
+    'threading.Thread workers (own UNSPECIFIED default, no object in common with any other thread), also when the spawning '
+    'thread is inside a ControlStatusCtx block / do_not_convert call at that time',
+    'runners that share a reused pool thread (pool smaller than the number of runners, no start barrier) run one after the '
+    'other on it; objects are attributed to the OS thread, so these runners may (must) see the same default object',
     'each node function is activated at most once per tree run (no loops / recursion over the same node)',
 ]
 LEVEL_TEXT = ('Randomised exploration of the call-tree x exception-placement x thread-count space with a complete trace oracle per '
               'run (every observation compared, not sampled); not exhaustive: depth <= 5, fan-out <= 3, <= 16 threads.')
 LEVEL_NOTE = ('Trusted: CPython threading.local / list semantics, the rendered probe statements (log.append of '
-              'malt.control_status_ctx()), the model in this file. Outside: async contexts, interpreter shutdown, contexts '
-              'entered by generators, schedule-dependent races inside one thread-local stack (there is none by construction).')
+              'malt.control_status_ctx()), the model in this file. Outside: status contexts held across an await, interpreter '
+              'shutdown, contexts entered by generators, thread idents reused by later threads, schedule-dependent races inside one thread-local stack (there is none by construction).')
 
 _KEEP = []           # modules stay loaded (see c01: code-object keyed weak cache)
 STATUSES = ('ENABLED', 'DISABLED', 'UNSPECIFIED')
@@ -606,10 +626,237 @@ def run_case(case):
       _retire(m)
 
 
+# ---- how the runners are started
+#
+# case['spawn'] (absent = the plain shape: the calling thread starts one threading.Thread per runner):
+#   how     'threads'    one threading.Thread per runner
+#           'pool'       concurrent.futures.ThreadPoolExecutor, one submit per runner
+#           'to_thread'  asyncio.run(gather(asyncio.to_thread(runner)...)) (each runs under a copy of the task's context)
+#   via     'main' | 'thread'   the spawning thread is the calling thread / a fresh plain thread
+#   touch   the spawning thread has looked at its conversion status before it starts the workers
+#   inside  None | status name | 'dnc'  the spawning thread is inside a ControlStatusCtx block / a do_not_convert call
+#           from before the workers start until after they are joined
+#   workers (pool, to_thread) pool size; smaller than the number of runners = pool threads are reused by later runners
+#           (then there is no start barrier)
+#   init    (pool) the pool has an initializer that replays the submitter's context variables into each pool thread
+# runner spec 'ctx': None | 'copy' | 'copy2'  the runner is started through contextvars.copy_context().run (copy2: a copy
+#           taken inside a copy); for the spawning thread's own runner: its tree runs under a copied context in that thread
+# Whatever the way a thread was started and whatever contextvars context it runs under, it is a thread: the oracle is
+# the same for all of them.
+SPAWN_DEFAULT = {'how': 'threads', 'via': 'main', 'touch': True, 'inside': None, 'workers': None, 'init': False}
+
+
+def _spawn_cfg(case):
+  cfg = dict(SPAWN_DEFAULT)
+  cfg.update(case.get('spawn') or {})
+  return cfg
+
+
+def _snap(res, tag):
+  try:
+    res[tag + '_top'] = malt.control_status_ctx()
+    res[tag + '_stack'] = list(ag_ctx._control_ctx())
+    return True
+  except Exception as e:  # broken accessor: property failure, reported by the oracle
+    res.setdefault('unreadable', e)
+    return False
+
+
+def _replay_context(ctx):
+  """Pool initializer: the usual recipe that hands the submitter's context variables to pool threads."""
+  for var, val in ctx.items():
+    var.set(val)
+
+
+def _worker(mod, spec, out, barrier, started):
+  out['thread'] = threading.current_thread()
+  started.append(1)
+  _run_runner(mod, spec, out, barrier)
+
+
+def _restore_stack(saved):
+  try:
+    cur = ag_ctx._control_ctx()
+    if len(cur) != len(saved) or any(a is not b for a, b in zip(cur, saved)):
+      cur[:] = saved
+  except Exception:
+    try:
+      ag_ctx.stacks.control_status = list(saved)
+    except Exception:
+      pass
+
+
+def _spawner(cfg, mods, specs, outs, res):
+  """Runs in the spawning thread: starts the workers, runs its own runner (if any), joins. Raw observations go to
+  `res`; never raises for a property failure (res['harness'] = traceback of a harness error)."""
+  import asyncio
+  import concurrent.futures
+  import contextvars
+  import functools
+  import traceback
+  res['thread'] = threading.current_thread()
+  wspecs = [(i, name, sp) for i, (name, sp) in enumerate(specs) if name != 'main']
+  own = [(i, sp) for i, (name, sp) in enumerate(specs) if name == 'main']
+  nth = len(wspecs)
+  how = cfg['how'] if nth else 'threads'
+  reuse = bool(how != 'threads' and cfg.get('workers') and cfg['workers'] < nth)
+  res['reuse'] = reuse
+  barrier = threading.Barrier(len(specs)) if nth and len(specs) > 1 and not reuse else None
+  early = bool(cfg['touch'] or cfg['inside'] is not None)
+  started = []
+  polled = res.setdefault('polled', [])
+
+  def poll():
+    # the spawning thread keeps looking at its own status while the others run (the number of looks
+    # depends on the schedule, the verdict does not)
+    if polled or 'before_top' not in res:
+      return
+    try:
+      c = malt.control_status_ctx()
+      if c is not res['before_top']:
+        polled.append(_status_name(c))
+    except Exception as e:
+      polled.append(repr(e))
+
+  def target_of(i, sp):
+    mod = mods[sp['tree']] if sp.get('tree') is not None else None
+    fn = functools.partial(_worker, mod, sp, outs[i], barrier, started)
+    c = sp.get('ctx')
+    if how == 'to_thread' or not c:
+      return fn
+    ctx = contextvars.copy_context() if c == 'copy' else contextvars.copy_context().run(contextvars.copy_context)
+    return functools.partial(ctx.run, fn)
+
+  def run_own():
+    for i, sp in own:
+      mod = mods[sp['tree']] if sp.get('tree') is not None else None
+      outs[i]['thread'] = threading.current_thread()
+      if sp.get('ctx'):
+        contextvars.copy_context().run(_run_runner, mod, sp, outs[i], barrier)
+      else:
+        _run_runner(mod, sp, outs[i], barrier)
+
+  def late_snap():
+    if not early:
+      _snap(res, 'before')
+
+  def go_threads():
+    ths = []
+    for i, name, sp in wspecs:
+      th = threading.Thread(target=target_of(i, sp), name='c16-' + name)
+      th.daemon = True
+      ths.append(th)
+    for th in ths:
+      th.start()
+    late_snap()
+    run_own()
+    for th in ths:
+      for _ in range(60000):
+        th.join(0.005)
+        poll()
+        if not th.is_alive():
+          break
+      if th.is_alive():
+        raise RuntimeError('runner thread did not finish (harness)')
+
+  def go_pool():
+    kw = {}
+    if cfg.get('init'):
+      kw = {'initializer': _replay_context, 'initargs': (contextvars.copy_context(),)}
+    ex = concurrent.futures.ThreadPoolExecutor(max_workers=cfg['workers'] if reuse else nth, thread_name_prefix='c16-pool',
+                                               **kw)
+    ok = False
+    try:
+      futs = [ex.submit(target_of(i, sp)) for i, name, sp in wspecs]
+      late_snap()
+      run_own()
+      for f in futs:
+        for _ in range(60000):
+          done, _nd = concurrent.futures.wait([f], timeout=0.005)
+          poll()
+          if done:
+            break
+        else:
+          raise RuntimeError('pooled runner did not finish (harness)')
+        f.result()
+      ok = True
+    finally:
+      ex.shutdown(wait=ok, cancel_futures=not ok)
+
+  async def go_async():
+    loop = asyncio.get_running_loop()
+    loop.set_default_executor(concurrent.futures.ThreadPoolExecutor(max_workers=cfg['workers'] if reuse else nth,
+                                                                    thread_name_prefix='c16-aio'))
+    tasks = [asyncio.ensure_future(asyncio.to_thread(target_of(i, sp))) for i, name, sp in wspecs]
+    await asyncio.sleep(0)
+    if not reuse:
+      for _ in range(120000):
+        if len(started) >= nth or all(t.done() for t in tasks):
+          break
+        await asyncio.sleep(0.001)
+      else:
+        raise RuntimeError('asyncio.to_thread runners did not start (harness)')
+    late_snap()
+    run_own()   # blocks the loop: nothing else is scheduled on it, the workers do not need it
+    pending = set(tasks)
+    for _ in range(60000):
+      if not pending:
+        break
+      _d, pending = await asyncio.wait(pending, timeout=0.005)
+      poll()
+    else:
+      raise RuntimeError('asyncio.to_thread runner did not finish (harness)')
+    for t in tasks:
+      t.result()
+
+  def go():
+    try:
+      if early and not _snap(res, 'before'):
+        return
+      if how == 'threads':
+        go_threads()
+      elif how == 'pool':
+        go_pool()
+      else:
+        asyncio.run(go_async())
+      _snap(res, 'after')
+    except BaseException:  # pylint:disable=broad-except
+      res['harness'] = traceback.format_exc()
+
+  if early and not _snap(res, 'base'):
+    return
+  ins = cfg['inside']
+  if ins is None:
+    go()
+  elif ins == 'dnc':
+    try:
+      malt.experimental.do_not_convert(go)()
+    except BaseException as e:  # pylint:disable=broad-except
+      res['inside_error'] = e
+  else:
+    cm = ag_ctx.ControlStatusCtx(ag_ctx.Status[ins])
+    try:
+      cm.__enter__()
+      res['inside_obj'] = cm
+    except BaseException as e:  # pylint:disable=broad-except
+      res['inside_error'] = e
+      return
+    go()
+    try:
+      cm.__exit__(None, None, None)
+    except BaseException as e:  # pylint:disable=broad-except
+      res['inside_error'] = e
+  if not early and 'before_top' in res:
+    res['base_top'], res['base_stack'] = res['before_top'], res['before_stack']
+  _snap(res, 'end')
+  if 'base_stack' in res:
+    _restore_stack(res['base_stack'])
+
+
 def _run_case(case, mods):
   fails = []
   info = {'runs': 0, 'max_crossed': 0, 'pushes': 0, 'exc_caught': 0, 'entered': 0, 'disabled_skip': 0, 'scope_fails': 0,
-          'rels': set()}
+          'rels': set(), 'pool_threads_reused': 0}
   roots = []
   for t in case['trees']:
     root = number(t)
@@ -624,6 +871,7 @@ def _run_case(case, mods):
       fails.append(('load:' + harness.exc_bucket(e), {'exc': repr(e)[:400]}))
       return fails, info
 
+  cfg = _spawn_cfg(case)
   specs = []
   if case.get('main') is not None:
     specs.append(('main', case['main']))
@@ -631,58 +879,99 @@ def _run_case(case, mods):
     specs.append(('thread%d' % i, t))
   outs = [{'rounds': []} for _ in specs]
   nthreads = len(case.get('threads', []))
-  barrier = threading.Barrier(len(specs)) if nthreads and len(specs) > 1 else None
+  via_thread = bool(nthreads and cfg['via'] == 'thread')
 
-  main_before = malt.control_status_ctx()
-  main_stack_before = list(ag_ctx._control_ctx())
-  threads = []
-  for (name, sp), out in zip(specs, outs):
-    mod = mods[sp['tree']] if sp.get('tree') is not None else None
-    if name == 'main':
-      continue
-    th = threading.Thread(target=_run_runner, args=(mod, sp, out, barrier), name='c16-' + name)
+  res = {}
+  call_thread = threading.current_thread()
+  call_before = malt.control_status_ctx()
+  call_stack_before = list(ag_ctx._control_ctx())
+  call_polled = None
+  if via_thread:
+    th = threading.Thread(target=_spawner, args=(cfg, mods, specs, outs, res), name='c16-spawner')
     th.daemon = True
-    threads.append(th)
-  for th in threads:
     th.start()
-  if specs and specs[0][0] == 'main':
-    sp = specs[0][1]
-    _run_runner(mods[sp['tree']] if sp.get('tree') is not None else None, sp, outs[0], barrier)
-  polled_bad = None
-  for th in threads:
-    # the calling thread keeps looking at its own status while the others run (the number of looks
-    # depends on the schedule, the verdict does not)
-    for _ in range(60000):
+    for _ in range(200000):
       th.join(0.005)
       try:
-        if polled_bad is None and malt.control_status_ctx() is not main_before:
-          polled_bad = _status_name(malt.control_status_ctx())
+        if call_polled is None and malt.control_status_ctx() is not call_before:
+          call_polled = _status_name(malt.control_status_ctx())
       except Exception as e:
-        polled_bad = repr(e)
+        call_polled = repr(e)
       if not th.is_alive():
         break
     if th.is_alive():
-      raise RuntimeError('runner thread did not finish (harness)')
-  if polled_bad is not None:
-    fails.append(('thread:calling-thread-status-changed-while-threads-run', {'saw': polled_bad}))
-  try:
-    main_after = malt.control_status_ctx()
-    main_stack_after = list(ag_ctx._control_ctx())
-    if main_after is not main_before or len(main_stack_after) != len(main_stack_before) or any(
-        a is not b for a, b in zip(main_stack_after, main_stack_before)):
+      raise RuntimeError('spawning thread did not finish (harness)')
+  else:
+    _spawner(cfg, mods, specs, outs, res)
+  if 'harness' in res:
+    _restore_stack(call_stack_before)
+    raise RuntimeError('spawner failed (harness):\n' + res['harness'])
+
+  # ---- the spawning thread
+  if 'unreadable' in res:
+    fails.append(('stack:unreadable:' + harness.exc_bucket(res['unreadable']), {'exc': repr(res['unreadable'])}))
+  if res.get('polled'):
+    fails.append(('thread:calling-thread-status-changed-while-threads-run', {'saw': res['polled'][0]}))
+  if 'inside_error' in res:
+    e = res['inside_error']
+    fails.append(('spawn-block-exit:' + harness.exc_bucket(e), {'inside': cfg['inside'], 'exc': repr(e)[:400]}))
+  if 'before_top' in res and 'after_top' in res:
+    sb, sa = res['before_stack'], res['after_stack']
+    if res['after_top'] is not res['before_top'] or len(sa) != len(sb) or any(a is not b for a, b in zip(sa, sb)):
       fails.append(('thread:calling-thread-status-changed' if nthreads else 'stack:calling-thread-not-restored',
-                    {'before': [_status_name(c) for c in main_stack_before],
-                     'after': [_status_name(c) for c in main_stack_after]}))
-      ag_ctx._control_ctx()[:] = main_stack_before
+                    {'before': [_status_name(c) for c in sb], 'after': [_status_name(c) for c in sa]}))
+  if cfg['inside'] is not None and 'before_top' in res:
+    want = 'DISABLED' if cfg['inside'] == 'dnc' else cfg['inside']
+    if _status_name(res['before_top']) != want:
+      fails.append(('status:spawner-inside-%s:got-%s' % (cfg['inside'], _status_name(res['before_top'])), {}))
+    if len(res['before_stack']) != len(res['base_stack']) + 1:
+      fails.append(('stack:length-inside-spawner-block', {'base': len(res['base_stack']), 'inside': len(res['before_stack'])}))
+  if 'base_top' in res and 'end_top' in res:
+    sb, sa = res['base_stack'], res['end_stack']
+    if res['end_top'] is not res['base_top'] or len(sa) != len(sb) or any(a is not b for a, b in zip(sa, sb)):
+      fails.append(('thread:calling-thread-status-changed' if nthreads else 'stack:calling-thread-not-restored',
+                    {'before': [_status_name(c) for c in sb], 'after': [_status_name(c) for c in sa], 'at': 'end'}))
+  if via_thread:
+    if call_polled is not None:
+      fails.append(('thread:calling-thread-status-changed-while-threads-run', {'saw': call_polled, 'thread': 'caller'}))
+    if 'base_top' in res:
+      if _status_name(res['base_top']) != 'UNSPECIFIED' or len(res['base_stack']) != 1:
+        fails.append(('thread:initial-not-default', {'where': 'spawner', 'status': _status_name(res['base_top']),
+                                                     'stack_len': len(res['base_stack'])}))
+      if any(res['base_top'] is c for c in call_stack_before):
+        fails.append(('thread:initial-is-calling-threads-ctx', {'where': 'spawner'}))
+  try:
+    call_after = malt.control_status_ctx()
+    call_stack_after = list(ag_ctx._control_ctx())
+    if call_after is not call_before or len(call_stack_after) != len(call_stack_before) or any(
+        a is not b for a, b in zip(call_stack_after, call_stack_before)):
+      fails.append(('thread:calling-thread-status-changed' if nthreads else 'stack:calling-thread-not-restored',
+                    {'before': [_status_name(c) for c in call_stack_before],
+                     'after': [_status_name(c) for c in call_stack_after], 'at': 'caller'}))
+      ag_ctx._control_ctx()[:] = call_stack_before
   except Exception as e:
     fails.append(('stack:unreadable:' + harness.exc_bucket(e), {'exc': repr(e)}))
-    ag_ctx.stacks.control_status = list(main_stack_before)
+    try:
+      ag_ctx.stacks.control_status = list(call_stack_before)
+    except Exception:
+      pass
 
-  seen = []  # per runner: {id(obj)}
+  # ---- the runners; objects are attributed to the OS thread that saw them
+  spawner_objs = list(call_stack_before)
+  for k in ('base_stack', 'before_stack', 'after_stack', 'end_stack'):
+    spawner_objs.extend(res.get(k, []))
+  by_thread = {}   # id(thread object) -> [label, {id(obj)}, first init_top]
+  by_thread[id(call_thread)] = ['caller', {id(c) for c in call_stack_before}, None]
+  if 'thread' in res:
+    ent = by_thread.setdefault(id(res['thread']), ['spawner', set(), None])
+    for k in ('base_stack', 'before_stack', 'after_stack', 'end_stack'):
+      ent[1].update(id(c) for c in res.get(k, []))
   run_fails = []  # per-run oracle clauses are listed before the whole-runner ones
   for (name, sp), out in zip(specs, outs):
-    mine = set()
-    seen.append(mine)
+    if 'thread' not in out:
+      continue   # never started (the spawner could not read its status)
+    ent = by_thread.setdefault(id(out['thread']), [name, set(), None])
+    mine = ent[1]
     if 'init_error' in out:
       fails.append(('stack:unreadable:' + harness.exc_bucket(out['init_error']), {'where': name}))
       continue
@@ -704,8 +993,15 @@ def _run_case(case, mods):
       if _status_name(out['init_top']) != 'UNSPECIFIED' or out['init_len'] != 1:
         fails.append(('thread:initial-not-default', {'where': name, 'status': _status_name(out['init_top']),
                                                      'stack_len': out['init_len']}))
-      if out['init_top'] is main_before or any(out['init_top'] is c for c in main_stack_before):
+      if any(out['init_top'] is c for c in spawner_objs):
         fails.append(('thread:initial-is-calling-threads-ctx', {'where': name}))
+      if ent[2] is None:
+        ent[2] = out['init_top']
+      else:
+        info['pool_threads_reused'] += 1
+        if ent[2] is not out['init_top']:
+          # nothing else ran on this pool thread in between: the status after the earlier task is the one before this one
+          fails.append(('stack:pool-thread-status-changed-between-tasks', {'where': name}))
     mine.add(id(out['init_top']))
     if sp.get('tree') is None:
       continue
@@ -725,17 +1021,19 @@ def _run_case(case, mods):
         for f in ('pushes', 'exc_caught', 'entered', 'disabled_skip', 'scope_fails'):
           info[f] += inf[f]
         info['rels'].update(inf['rel'].values())
-  for i in range(len(seen)):
-    for j in range(i + 1, len(seen)):
-      common_ids = seen[i] & seen[j]
+  ents = list(by_thread.values())
+  shared = None
+  for i in range(len(ents)):
+    for j in range(i + 1, len(ents)):
+      common_ids = ents[i][1] & ents[j][1]
       if common_ids:
-        fails.append(('thread:ctx-object-shared-between-threads',
-                      {'runners': [specs[i][0], specs[j][0]], 'n_shared': len(common_ids)}))
+        shared = {'runners': [ents[i][0], ents[j][0]], 'n_shared': len(common_ids)}
         break
-    else:
-      continue
-    break
-  # outs (logs) hold the ctx objects alive until here, so id() is unambiguous
+    if shared:
+      break
+  if shared:
+    fails.append(('thread:ctx-object-shared-between-threads', shared))
+  # outs / res hold the ctx and thread objects alive until here, so id() is unambiguous
   out_fails, seenb = [], set()
   for b, d in run_fails + fails:
     if b not in seenb:
@@ -815,24 +1113,67 @@ def trees(draw, max_depth, max_nodes, max_fan):
 
 
 @st.composite
+def _spawn(draw, nth):
+  """How the runner threads come to life (None = one plain threading.Thread each, started by the calling thread)."""
+  if draw(st.sampled_from([True, False, False])):
+    return None
+  how = draw(st.sampled_from(['threads', 'threads', 'pool', 'to_thread']))
+  via = draw(st.sampled_from(['main', 'main', 'thread']))
+  sp = {'how': how, 'via': via,
+        'touch': True if via == 'main' else draw(st.sampled_from([True, True, False])),
+        'inside': draw(st.sampled_from([None, None, None, 'ENABLED', 'DISABLED', 'UNSPECIFIED', 'dnc']))}
+  if how != 'threads':
+    sp['workers'] = draw(st.integers(1, nth - 1)) if nth > 1 and draw(st.sampled_from([False, False, True])) else None
+  if how == 'pool':
+    sp['init'] = draw(_bool)
+  return sp
+
+
+_wctx = st.sampled_from([None, 'copy', 'copy', 'copy2'])
+
+
+@st.composite
 def cases(draw, b):
   mode = draw(st.sampled_from(['main', 'main', 'main', 'thread1', 'threads', 'threads']))
   outer = st.sampled_from([None, None, 'ENABLED', 'DISABLED', 'UNSPECIFIED'])
   rounds = st.sampled_from([1, 1, 2])
   tr = trees(b['max_depth'], b['max_nodes'], b['max_fan'])
+
+  def with_ctx(spec, sp, own=False):
+    # to_thread copies the context by itself; the spawner's own tree may run under a copied context in any shape
+    if own:
+      if draw(st.sampled_from([False, False, False, True])):
+        spec['ctx'] = 'copy'
+    elif sp is not None and sp['how'] != 'to_thread':
+      c = draw(_wctx)
+      if c:
+        spec['ctx'] = c
+    return spec
+
   if mode == 'main':
-    return {'trees': [draw(tr)], 'main': {'tree': 0, 'outer': draw(outer), 'rounds': draw(rounds)}, 'threads': []}
+    return {'trees': [draw(tr)], 'main': with_ctx({'tree': 0, 'outer': draw(outer), 'rounds': draw(rounds)}, None, True),
+            'threads': []}
   if mode == 'thread1':
-    return {'trees': [draw(tr)], 'main': {'tree': None, 'outer': draw(outer), 'rounds': 1},
+    case = {'trees': [draw(tr)], 'main': {'tree': None, 'outer': draw(outer), 'rounds': 1},
             'threads': [{'tree': 0, 'outer': draw(outer), 'rounds': draw(rounds)}]}
-  ntrees = draw(st.integers(1, 3))
-  small = trees(max(2, b['max_depth'] - 1), max(3, b['max_nodes'] // 2), b['max_fan'])
-  pool = [draw(small) for _ in range(ntrees)]
-  nth = draw(st.integers(2, b['max_threads']))
-  main_tree = draw(st.sampled_from([None] + list(range(ntrees))))
-  return {'trees': pool, 'main': {'tree': main_tree, 'outer': draw(outer), 'rounds': 1},
-          'threads': [{'tree': draw(st.integers(0, ntrees - 1)), 'outer': draw(outer), 'rounds': draw(rounds)}
-                      for _ in range(nth)]}
+    nth = 1
+  else:
+    ntrees = draw(st.integers(1, 3))
+    small = trees(max(2, b['max_depth'] - 1), max(3, b['max_nodes'] // 2), b['max_fan'])
+    pool = [draw(small) for _ in range(ntrees)]
+    nth = draw(st.integers(2, b['max_threads']))
+    main_tree = draw(st.sampled_from([None] + list(range(ntrees))))
+    case = {'trees': pool, 'main': {'tree': main_tree, 'outer': draw(outer), 'rounds': 1},
+            'threads': [{'tree': draw(st.integers(0, ntrees - 1)), 'outer': draw(outer), 'rounds': draw(rounds)}
+                        for _ in range(nth)]}
+  sp = draw(_spawn(nth))
+  if sp is not None:
+    case['spawn'] = sp
+    for t in case['threads']:
+      with_ctx(t, sp)
+    if case['main'].get('tree') is not None:
+      with_ctx(case['main'], sp, True)
+  return case
 
 
 # ------------------------------------------------------------------------------------------------
@@ -849,6 +1190,34 @@ def _classes(case, info):
     cl.append('thread_inside_outer_block')
   if any(s.get('rounds', 1) > 1 for s in [case['main']] + case['threads'] if s):
     cl.append('tree_run_twice')
+  if nth:
+    cfg = _spawn_cfg(case)
+    how = cfg['how']
+    cl.append('spawn:how=' + {'threads': 'threading.Thread', 'pool': 'ThreadPoolExecutor', 'to_thread': 'asyncio.to_thread'}[how])
+    cl.append('spawn:by=' + ('calling_thread' if cfg['via'] == 'main' else 'intermediate_thread'))
+    if not (cfg['touch'] or cfg['inside'] is not None):
+      cl.append('spawn:spawner_has_not_touched_status_yet')
+    if cfg['inside'] is not None:
+      cl.append('spawn:spawner_inside=' + ('do_not_convert' if cfg['inside'] == 'dnc' else 'block:' + cfg['inside']))
+    reuse = bool(how != 'threads' and cfg.get('workers') and cfg['workers'] < nth)
+    if reuse:
+      cl.append('spawn:pool_smaller_than_runners(threads_reused,no_barrier)')
+    if how == 'pool' and cfg.get('init'):
+      cl.append('spawn:pool_initializer_replays_context_vars')
+    ctxs = {'copy' if how == 'to_thread' else (t.get('ctx') or 'empty') for t in case['threads']}
+    for c in sorted(ctxs):
+      cl.append('worker_context:' + {'empty': 'fresh(empty)', 'copy': 'copy_of_spawners', 'copy2': 'copy_of_copy'}[c])
+    inherits = ctxs - {'empty'} or (how == 'pool' and cfg.get('init'))
+    if inherits:
+      cl.append('worker_started_with_spawners_context_vars')
+      if cfg['touch'] or cfg['inside'] is not None:
+        cl.append('worker_started_with_spawners_context_vars_after_spawner_touched_status')
+        if not reuse and nth > 1:
+          cl.append('worker_started_with_spawners_context_vars_after_spawner_touched_status:overlapping(barrier)')
+  if case['main'] and case['main'].get('ctx') and case['main'].get('tree') is not None:
+    cl.append('spawner_own_tree_under_copied_context')
+  if info.get('pool_threads_reused'):
+    cl.append('pool_thread_ran_more_than_one_runner')
   kinds, forms, srcs, feats = set(), set(), set(), set()
   depth = [0]
   nn = 0
@@ -967,6 +1336,30 @@ def replay(case):
 def _variants(case):
   """Smaller cases, most aggressive first."""
   import copy
+  if case.get('spawn'):
+    c = copy.deepcopy(case)
+    del c['spawn']
+    for s in [c['main']] + c['threads']:
+      if s:
+        s.pop('ctx', None)
+    yield c
+    for fld, v in sorted(SPAWN_DEFAULT.items()):
+      if case['spawn'].get(fld, v) != v and not (fld == 'how' and case['spawn']['how'] == 'to_thread'):
+        c = copy.deepcopy(case)
+        c['spawn'][fld] = v
+        yield c
+    if case['spawn']['how'] == 'to_thread':
+      # asyncio.to_thread = pool thread + copied context
+      c = copy.deepcopy(case)
+      c['spawn']['how'] = 'threads'
+      for s in c['threads']:
+        s['ctx'] = 'copy'
+      yield c
+  for s_i, s in enumerate([case['main']] + case['threads']):
+    if s and s.get('ctx'):
+      c = copy.deepcopy(case)
+      (c['main'] if s_i == 0 else c['threads'][s_i - 1]).pop('ctx')
+      yield c
   # fewer runners
   if case['threads']:
     for t in case['threads']:
